@@ -574,7 +574,10 @@ def reset_library_state():
 def run_case(case, caching=True, evaluations=1, tree_out=None, ambient=None):
     """Build the case on the implementation and evaluate it; returns a list of outcomes."""
     reset_library_state()
-    (enable_caching if caching else disable_caching)()
+    # 'built_under_caching' (round 18): the query is BUILT with the switch on and, in the cache-off configuration, the switch
+    # is turned off only after it was built - the run-time switch is read when a query is evaluated, not when it is written
+    build_on = caching or bool(case.get('built_under_caching'))
+    (enable_caching if build_on else disable_caching)()
     held = []
     try:
         b = Built(case)
@@ -584,6 +587,8 @@ def run_case(case, caching=True, evaluations=1, tree_out=None, ambient=None):
             b.share_conds = {}           # structurally equal comparisons are ONE condition object
         snapshot = [{k: (list(v) if isinstance(v, list) else v) for k, v in vars(o).items()} for o in b.objs]
         b.query()
+        if build_on and not caching:
+            disable_caching()
         outs = []
         if tree_out is not None:
             try:
